@@ -680,6 +680,110 @@ let pred_c08 spec steps impl =
       !ok end
   | None -> false
 
+(* C13: the query API agrees with enforcement, judged only from the
+   implementation's own dumps of the stored rules (no role graph, no model) *)
+let parse_rules_out (o : string) : string list list =
+  if o = "-" then [] else List.map (fun r -> if r = "!" then [] else String.split_on_char ',' r) (String.split_on_char ';' o)
+let parse_names_out (o : string) : string list = if o = "!" then [] else String.split_on_char ',' o
+let uniq l = List.sort_uniq compare l
+let pred_c13 steps impl =
+  match impl_results impl with
+  | Some outs ->
+    let sts = Array.of_list (steps_list steps) and os = Array.of_list outs in
+    let n = Array.length sts in
+    if n <> Array.length os then false else begin
+      let ok = ref true in
+      let fail () = ok := false in
+      let i = ref 0 in
+      let last_delete = ref None in
+      while !i < n do
+        if sts.(!i) = "?ga:p" && !i + 1 < n && sts.(!i + 1) = "?ga:g" then begin
+          let prules = List.map (fun r -> List.tl (List.tl r)) (parse_rules_out os.(!i)) in
+          let grules = List.map (fun r -> List.tl (List.tl r)) (parse_rules_out os.(!i + 1)) in
+          (* effect of the preceding delete call *)
+          (match !last_delete with
+           | Some ("du", nm) ->
+             if List.exists (fun r -> List.nth_opt r 0 = Some nm) grules || List.exists (fun r -> List.nth_opt r 0 = Some nm) prules then fail ()
+           | Some ("dra", nm) ->
+             if List.exists (fun r -> List.nth_opt r 1 = Some nm) grules || List.exists (fun r -> List.nth_opt r 0 = Some nm) prules then fail ()
+           | Some ("dp", perm) ->
+             let pm = String.split_on_char ',' perm in
+             if List.exists (fun r -> match r with _ :: tl -> List.length tl >= List.length pm &&
+                                                              List.filteri (fun j _ -> j < List.length pm) tl = pm | [] -> false) prules then fail ()
+           | _ -> ());
+          last_delete := None;
+          let edges d = List.filter_map (fun r -> match r, d with
+              (* a rule from a name to itself asserts no link (add_link ignores it) *)
+              | [a; b], "-" when a <> b -> Some (a, b)
+              | [a; b; d'], d when d <> "-" && d' = d && a <> b -> Some (a, b)
+              | _ -> None) grules in
+          let reach d u =
+            let es = edges d in
+            let rec go seen front =
+              let nxt = uniq (List.concat_map (fun x -> List.filter_map (fun (a, b) -> if a = x then Some b else None) es) front) in
+              let nw = List.filter (fun x -> not (List.mem x seen)) nxt in
+              if nw = [] then seen else go (seen @ nw) nw in
+            go [] [u] in
+          let iperms d u =
+            let subs = uniq (u :: reach d u) in
+            uniq (List.filter (fun r -> match r with
+                | sub :: rest -> List.mem sub subs && (d = "-" || (match rest with dd :: _ -> dd = d | [] -> false))
+                | [] -> false) prules) in
+          let rf = Hashtbl.create 16 and uf = Hashtbl.create 16 in
+          let j = ref (!i + 2) in
+          while !j < n && is_query sts.(!j) && sts.(!j) <> "?ga:p" do
+            let f = String.split_on_char ':' sts.(!j) in
+            (match f with
+             | ["?ir"; u; d] ->
+               if uniq (parse_names_out os.(!j)) <> uniq (reach d u) then fail ()
+             | ["?ip"; u; d] ->
+               if uniq (parse_rules_out os.(!j)) <> iperms d u then fail ()
+             | ["?rf"; u; d] -> Hashtbl.replace rf (u, d) (parse_names_out os.(!j));
+               (* direct roles = out-neighbours *)
+               if uniq (parse_names_out os.(!j)) <> uniq (List.filter_map (fun (a, b) -> if a = u then Some b else None) (edges d)) then fail ()
+             | ["?uf"; u; d] -> Hashtbl.replace uf (u, d) (parse_names_out os.(!j))
+             | ["?e"; vs] ->
+               let vals = List.map (fun v -> String.sub v 2 (String.length v - 2)) (String.split_on_char ',' vs) in
+               (match vals with
+                | [u; o; a] ->
+                  let granted = List.exists (fun r -> r <> [] && List.tl r = [o; a]) (iperms "-" u) in
+                  if os.(!j) <> b01 granted then fail ()
+                | [u; d; o; a] ->
+                  let granted = List.exists (fun r -> r <> [] && List.tl r = [d; o; a]) (iperms d u) in
+                  if os.(!j) <> b01 granted then fail ()
+                | _ -> ())
+             | ["?iu"; perm] ->
+               let pm = String.split_on_char ',' perm in
+               let res = parse_names_out os.(!j) in
+               let roles = uniq (List.filter_map (fun r -> List.nth_opt r 1) grules) in
+               let cands = uniq (List.filter_map (fun r -> List.nth_opt r 0) prules @
+                                 List.filter_map (fun (a, b) -> if List.mem b roles then Some a else None) (edges "-")) in
+               let users = List.filter (fun u -> not (List.mem u roles)) cands in
+               let has u = List.exists (fun r -> r <> [] && List.tl r = pm) (iperms "-" u) in
+               if uniq res <> uniq (List.filter has users) then fail ()
+             | _ -> ());
+            incr j
+          done;
+          (* roles-for-user and users-for-role are inverse views *)
+          Hashtbl.iter (fun (u, d) rs -> List.iter (fun r ->
+              match Hashtbl.find_opt uf (r, d) with
+              | Some us -> if not (List.mem u us) then fail ()
+              | None -> ()) rs) rf;
+          Hashtbl.iter (fun (r, d) us -> List.iter (fun u ->
+              match Hashtbl.find_opt rf (u, d) with
+              | Some rs -> if not (List.mem r rs) then fail ()
+              | None -> ()) us) uf;
+          i := !j
+        end else begin
+          (match String.split_on_char ':' sts.(!i) with
+           | [("du" | "dra" | "dp") as k; x] when os.(!i) = "1" || os.(!i) = "0" -> last_delete := Some (k, x)
+           | _ -> ());
+          incr i
+        end
+      done;
+      !ok end
+  | None -> false
+
 let pred_eng line spec ad flags steps impl =
   (* a constructor that failed (e.g. a scripted adapter failing the initial load) leaves nothing to judge *)
   if impl_results impl = None && String.length impl >= 5 && String.sub impl 0 5 = "new=E" then "-" else
@@ -687,7 +791,14 @@ let pred_eng line spec ad flags steps impl =
   | "C05" -> b01 (pred_c05 steps impl)
   | "C09" -> b01 (pred_c09 steps impl)
   | "C10" -> pred_c10 steps impl
+  | "C06" ->
+    (* total (no panic / hang), arity errors reported, and a grant only when the reference semantics grant *)
+    (match impl_results impl with
+     | Some outs when not (List.exists (fun o -> o = "P" || o = "X" || o = "PANIC" || o = "HANG") outs) ->
+       b01 (pred_c01 line spec ad flags steps impl)
+     | _ -> "0")
   | "C07" -> b01 (pred_c07 steps impl)
+  | "C13" -> b01 (pred_c13 steps impl)
   | "C08" -> b01 (pred_c08 spec steps impl)
   | "C01" -> b01 (pred_c01 line spec ad flags steps impl)
   | "C17" -> b01 (pred_c17 steps impl)
